@@ -31,6 +31,7 @@ type Interp struct {
 
 	globals     map[*ssa.Global]*Value
 	globalTrail []globalUndo
+	syncDepth   int // > 0 between Lock and Unlock and inside atomic operations (natives_sync.go)
 	initDone    map[*ssa.Package]bool
 
 	ctx      *Ctx
@@ -1291,23 +1292,51 @@ func (in *Interp) decodeRune(s []*Term) (*Term, int) {
 	if in.branch(in.tb.Lt(b0, in.tb.Int(0x80))) {
 		return b0, 1
 	}
-	// non-ASCII lead byte: need concrete bytes
-	buf := make([]byte, 0, 4)
-	for i := 0; i < len(s) && i < 4; i++ {
-		v, ok := s[i].Int64()
-		if !ok {
-			if i == 0 {
-				unsup("symbolic non-ASCII byte in string iteration")
-			}
-			break
+	// non-ASCII lead byte: utf8.DecodeRuneInString with symbolic bytes. Every decision is a byte-class
+	// branch; the rune is linear in the bytes because the masked bits are fixed by the classes.
+	tb := in.tb
+	rng := func(lo, hi int) ByteSet {
+		var bs ByteSet
+		for c := lo; c <= hi; c++ {
+			bs.Add(c)
 		}
-		buf = append(buf, byte(v))
+		return bs
 	}
-	r, w := decodeRuneBytes(buf)
-	if w < len(buf) || !allConcretePrefix(s, w) {
-		// fine: decoded from a concrete prefix
+	inRange := func(t *Term, lo, hi int) bool { return in.branch(tb.InSet(t, rng(lo, hi))) }
+	runeErr := tb.Int(0xFFFD)
+	cont := func(i int) bool { return i < len(s) && inRange(s[i], 0x80, 0xBF) }
+	off := func(t *Term, base int64) *Term { return tb.Sub(t, tb.Int(base)) }
+	switch {
+	case inRange(b0, 0xC2, 0xDF):
+		if !cont(1) {
+			return runeErr, 1
+		}
+		return tb.Add(tb.Mul(off(b0, 0xC0), tb.Int(64)), off(s[1], 0x80)), 2
+	case inRange(b0, 0xE0, 0xEF):
+		lo, hi := 0x80, 0xBF
+		if in.branch(tb.Eq(b0, tb.Int(0xE0))) {
+			lo = 0xA0
+		} else if in.branch(tb.Eq(b0, tb.Int(0xED))) {
+			hi = 0x9F
+		}
+		if len(s) < 2 || !inRange(s[1], lo, hi) || !cont(2) {
+			return runeErr, 1
+		}
+		return tb.Add(tb.Add(tb.Mul(off(b0, 0xE0), tb.Int(4096)), tb.Mul(off(s[1], 0x80), tb.Int(64))), off(s[2], 0x80)), 3
+	case inRange(b0, 0xF0, 0xF4):
+		lo, hi := 0x80, 0xBF
+		if in.branch(tb.Eq(b0, tb.Int(0xF0))) {
+			lo = 0x90
+		} else if in.branch(tb.Eq(b0, tb.Int(0xF4))) {
+			hi = 0x8F
+		}
+		if len(s) < 2 || !inRange(s[1], lo, hi) || !cont(2) || !cont(3) {
+			return runeErr, 1
+		}
+		r := tb.Add(tb.Mul(off(b0, 0xF0), tb.Int(262144)), tb.Mul(off(s[1], 0x80), tb.Int(4096)))
+		return tb.Add(r, tb.Add(tb.Mul(off(s[2], 0x80), tb.Int(64)), off(s[3], 0x80))), 4
 	}
-	return in.tb.Int(int64(r)), w
+	return runeErr, 1
 }
 
 func allConcretePrefix(s []*Term, n int) bool {
